@@ -12,7 +12,9 @@ CONFIG = worlda.base_config(
     "re-uses its MH number), RENAME the INBOX away and, with lowered pack knobs, make the folder get renumbered; message bodies with dot-lines, missing final newline, CRLF. "
     "Oracle: numbers/UIDL/sizes never change during the session, UIDL = IMAP UID, RETR n is -ERR or exactly the snapshot message (token and bytes equal "
     "IMAP BODY[]), announced = delivered octets, dot-stuffed termination, QUIT removes exactly the marked messages, RSET/drop removes nothing. "
-    "non-trivial = a POP3 session ran; distinct = op signatures",
+    "Every sixth program runs the POP3 session through the real POP3 front-end (World B: pop3_server relaying to the real per-user server) over "
+    "messages that include a 70 kB line, with several command lines (empty ones among them) in one write: every RETR arrives complete, terminated, "
+    "with the announced octets and nothing else inside it. non-trivial = a POP3 session ran; distinct = op signatures",
     level_text="snapshot-isolation and delete-on-QUIT accounting for the real POP3 handler of the per-user server against the reference model, with IMAP "
     "mutations, deliveries and packing interleaved under seeded schedules; exploration.",
     expected_probes=["pop3_quit_removed", "deliveries"],
@@ -107,5 +109,169 @@ def generate(seed, tier, index, kf):
     return prog
 
 
-execute = worlda.execute
-simplifications = worlda.simplifications
+# ---------------------------------------------------------------------------
+# family "front": the same snapshot/size/termination clauses seen by a client of the real POP3 front-end
+# (asimap.pop3_server relaying to the real per-user server, World B)
+FRONT_SHAPES = ["plain", "dot-lines", "no-final-newline", "crlf", "long-line", "huge-line", "multipart"]
+
+
+def generate_front(seed, tier):
+    r = random.Random(seed)
+    n = r.randint(1, 4)
+    msgs = [{"tok": i + 1, "shape": r.choice(FRONT_SHAPES)} for i in range(n)]
+    if r.random() < 0.5:
+        msgs[r.randrange(n)]["shape"] = "huge-line"
+    steps = []
+    for _ in range(r.randint(3, 10)):
+        x = r.random()
+        k = r.randint(1, n)
+        if x < 0.45:
+            steps.append({"send": f"RETR {k}", "expect": [["retr", k]]})
+        elif x < 0.55:
+            steps.append({"send": f"TOP {k} 1000000", "expect": [["retr", k]]})
+        elif x < 0.65:
+            steps.append({"send": "STAT", "expect": [["line"]]})
+        elif x < 0.75:
+            steps.append({"send": "LIST", "expect": [["multi"]]})
+        elif x < 0.85:
+            steps.append({"send": "UIDL", "expect": [["multi"]]})
+        else:
+            # several lines in one write, empty ones among them: every line is answered, in order, and no answer
+            # stands inside another one
+            e = r.randint(1, 3)
+            steps.append({"send": f"RETR {k}\r\n" + "\r\n" * e + "NOOP", "expect": [["retr", k]] + [["line"]] * e + [["line"]]})
+    return {"format": 1, "seed": seed, "world": "B", "family": "front", "msgs": msgs, "steps": steps, "seg": r.choice(("whole", "whole", "bytes", "random")),
+            "latency": {"exec": r.choice(("zero", "small")), "db": "zero", "net": r.choice(("zero", "small", "bimodal"))}, "ops": [], "props": [PROP]}
+
+
+def execute_front(program, opts):
+    import asyncio
+    import os
+
+    from harness.driver import KnownFindings
+    from harness.runctx import RunCtx
+    from sim.loop import SimQuiescent, StepLimit
+    from sim.worldb import FrontEnd, RawPop3Session
+
+    ctx = RunCtx(program, opts)
+    world = ctx.world
+    env = ctx.env
+    loop = env.loop
+    world.known = KnownFindings()
+    V = world.violate
+    C = world.count
+    fe = FrontEnd(world, ctx.jail, {"alice": {"password": "alicepw"}})
+    want = {}
+
+    def store():
+        inbox = os.path.join(fe.maildir("alice"), "inbox")
+        os.makedirs(inbox, exist_ok=True)
+        for i, m in enumerate(program["msgs"], 1):
+            data = corpus.build(m["shape"], m["tok"])
+            with open(os.path.join(inbox, str(i)), "wb") as f:
+                f.write(data)
+            want[i] = m["tok"]
+        with open(os.path.join(inbox, ".mh_sequences"), "w") as f:
+            f.write("")
+
+    async def multiline(p, what):
+        """-> list of destuffed lines (without CRLF) or None when the reply was cut short"""
+        out = []
+        while True:
+            ln = await p.line(timeout=120.0)
+            if ln is None:
+                return None
+            if not ln.endswith(b"\r\n"):
+                V(PROP, "pop3_framing", what=what, line=ln[:60])
+                return None
+            if ln == b".\r\n":
+                return out
+            if ln.startswith(b"."):
+                ln = ln[1:]
+            out.append(ln[:-2])
+
+    async def main():
+        await fe.start()
+        store()
+        p = RawPop3Session(world, "P", "10.2.0.1")
+        world.net.connect(fe.pop_port, p, addr="10.2.0.1", seg_c2s=program.get("seg", "whole"))
+        await p.line()
+        await p.cmd("USER alice")
+        ln = await p.cmd("PASS alicepw", timeout=200.0)
+        if ln is None or not ln.startswith(b"+OK"):
+            V(PROP, "pop3_no_reply", cmd="PASS", reply=ln)
+            return
+        ctx.nontrivial = True
+        for st in program["steps"]:
+            if p.lost:
+                break
+            world.note("C>P", st["send"][:80])
+            p.transport.write(st["send"].encode("latin-1") + b"\r\n")
+            for exp in st["expect"]:
+                C("c20_front_reply")
+                ln = await p.line(timeout=200.0)
+                if ln is None:
+                    V(PROP, "pop3_connection_dropped" if p.lost else "pop3_no_reply", cmd=st["send"][:40], waiting_for=exp[0], through="front-end")
+                    return
+                if not (ln.startswith(b"+OK") or ln.startswith(b"-ERR")) or not ln.endswith(b"\r\n"):
+                    V(PROP, "pop3_framing", cmd=st["send"][:40], status=ln[:60], through="front-end")
+                    return
+                if exp[0] == "line" or ln.startswith(b"-ERR"):
+                    continue
+                body = await multiline(p, st["send"][:40])
+                if body is None:
+                    V(PROP, "pop3_reply_truncated", cmd=st["send"][:40], lost=p.lost, through="front-end")
+                    return
+                if exp[0] == "retr":
+                    C("c20_front_retr")
+                    data = b"\r\n".join(body) + b"\r\n"
+                    ref = corpus.build(program["msgs"][exp[1] - 1]["shape"], want[exp[1]])
+                    refn = b"\r\n".join(ref.replace(b"\r\n", b"\n").split(b"\n"))
+                    if not refn.endswith(b"\r\n"):
+                        refn += b"\r\n"
+                    announced = None
+                    w = ln.split()
+                    if len(w) >= 2 and w[1].isdigit():
+                        announced = int(w[1])
+                    if corpus.tok_of(data) != want[exp[1]]:
+                        V(PROP, "pop3_retr_wrong_message", cmd=st["send"][:40], want=want[exp[1]], got=corpus.tok_of(data), through="front-end")
+                    elif st["send"].startswith("RETR") and announced is not None and announced != len(data):
+                        V(PROP, "pop3_size_mismatch", cmd=st["send"][:40], announced=announced, delivered=len(data), through="front-end")
+                    elif b"-ERR" in data or b"+OK" in data:
+                        V(PROP, "pop3_reply_interleaved", cmd=st["send"][:40], through="front-end")
+        p.close()
+
+    extra = {}
+    try:
+        loop.run_until_complete(loop.create_task(main(), name="c20-front"))
+    except SimQuiescent:
+        extra["harness_error"] = "quiescent"
+    except StepLimit:
+        extra["harness_error"] = "step cap"
+    res = ctx.result(extra)
+    ctx.cleanup()
+    return res
+
+
+_generate_a = generate
+
+
+def generate(seed, tier, index, kf):
+    if index % 6 == 5:
+        return generate_front(seed, tier)
+    return _generate_a(seed, tier, index, kf)
+
+
+def execute(program, opts):
+    if program.get("family") == "front":
+        return execute_front(program, opts)
+    return worlda.execute(program, opts)
+
+
+def simplifications(program):
+    if program.get("family") == "front":
+        out = []
+        for i in range(len(program["steps"])):
+            out.append(dict(program, steps=program["steps"][:i] + program["steps"][i + 1:]))
+        return out
+    return worlda.simplifications(program)
